@@ -19,13 +19,65 @@ type ssaFunc struct{ *ssa.Function }
 
 // edgesMatching returns the CFG edges of b's function whose literal matches one of the patterns.
 func edgesMatching(b *ana.Builder, patterns ...string) []ana.CondEdge {
+	return edgesMatchingD(b, patterns, 0)
+}
+
+// edgesMatchingD: edges on which one of the facts is established — by the
+// edge's own literal, or because the edge tests the outcome of a repository
+// helper all of whose exits with that outcome have themselves passed such an
+// edge (parameters bound to the call's arguments). A validation written inline
+// or moved into a helper yields the same set of facts.
+func edgesMatchingD(b *ana.Builder, patterns []string, depth int) []ana.CondEdge {
 	var out []ana.CondEdge
 	for _, ce := range b.CondEdges() {
 		if ana.LitMatches(ce.Lit, patterns...) {
 			out = append(out, ce)
+			continue
+		}
+		if depth >= 2 {
+			continue
+		}
+		lits := []*ana.Term{ce.Lit}
+		if ce.Lit.Op == "and" {
+			lits = ce.Lit.Args
+		}
+		for _, lit := range lits {
+			o, ok := helperOutcome(lit)
+			if !ok {
+				continue
+			}
+			hb := boundBuilderP(b.P, o.call)
+			xs := exitsWith(hb, o)
+			all := len(xs) > 0
+			var sub []ana.Edge
+			if all {
+				sub = plainEdges(edgesMatchingD(hb, patterns, depth+1))
+			}
+			for _, x := range xs {
+				if !all || !mustPass(hb.Fn, x.Instr.Block(), sub) {
+					all = false
+					break
+				}
+			}
+			if all {
+				out = append(out, ce)
+				break
+			}
 		}
 	}
 	return out
+}
+
+func boundBuilderP(p *ana.Prog, call *ana.Term) *ana.Builder {
+	h := calleeOf(call)
+	hb := ana.NewBuilder(p, h)
+	hb.Bind = map[*ssa.Parameter]*ana.Term{}
+	for i, prm := range h.Params {
+		if i < len(call.Args) {
+			hb.Bind[prm] = call.Args[i]
+		}
+	}
+	return hb
 }
 
 func plainEdges(ces []ana.CondEdge) []ana.Edge {
